@@ -52,6 +52,14 @@ CATALOGUE = [
     dict(modules=[dict(interval=16, slow=40, dopoll=[(1, 'ok')], reads={'a': [(1, 'ok')]}),
                   dict(interval=8, slow=24, dopoll=[(1, 'ok')], reads={'a': [(1, 'ok')]}, readable=True)],
          env=[(20, 'interval', 0, 2), (60, 'interval', 0, 32), (100, 'interval', 1, 1)], horizon=260),
+    # a pollinterval change while fast polling is on is ignored until fast polling is switched off
+    dict(modules=[dict(interval=8, slow=24, dopoll=[(1, 'ok')], reads={'a': [(1, 'ok')]}, readable=True)],
+         env=[(20, 'fast', 0, (True, 1)), (40, 'interval', 0, 16), (80, 'fast', 0, (False, 0)), (150, 'interval', 0, 2)], horizon=200),
+    # configured writes that fail in every way at start-up: the thread goes on polling
+    dict(modules=[dict(interval=4, slow=8, dopoll=[(1, 'ok')], reads={'a': [(1, 'ok')]},
+                       writes={'w': (1.0, 'other'), 'x': (2.0, 'secop'), 'y': (3.0, 'silent'), 'z': 4.0}),
+                  dict(interval=8, slow=16, dopoll=[(1, 'ok')], reads={'a': [(0, 'ok')]}, writes={'w': (1.0, 'comm')})],
+         horizon=120),
     # the fast interval changes while fast polling is already on; switching off twice
     dict(modules=[dict(interval=16, slow=40, dopoll=[(1, 'ok')], reads={'a': [(1, 'ok')]})],
          env=[(20, 'fast', 0, (True, 8)), (60, 'fast', 0, (True, 2)), (100, 'fast', 0, (True, 1)), (130, 'fast', 0, (False, 0)),
@@ -71,7 +79,7 @@ def random_scenario(rnd):
                         for p in rnd.sample(['a', 'b', 'd'], rnd.randint(0, 2))},
                  nopoll=['c'] if rnd.random() < 0.4 else [], readable=rnd.random() < 0.5 or mi == 0)
         if rnd.random() < 0.3:
-            m['writes'] = {'w': 1.0}
+            m['writes'] = {'w': 1.0 if rnd.random() < 0.5 else (1.0, rnd.choice(outs[3:]))}
         if rnd.random() < 0.25:
             m['rh'] = dict(keys=['e', 'f'], script=[(rnd.choice(durs[:5]), rnd.choice(outs)) for _ in range(rnd.randint(1, 2))])
         if rnd.random() < 0.25:
